@@ -244,8 +244,12 @@ func (a *skAnalysis) evalFn(f *skFn) (decisions []skDecision, callArgs map[*ssa.
 		}
 		last := r.Results[len(r.Results)-1]
 		if types.Identical(last.Type(), types.Universe.Lookup("error").Type()) {
-			// a return whose error operand is a freshly constructed error is a failure return; everything else may be a success
+			// a return whose error operand is a freshly constructed error, or an error that a dominating test has shown to be non-nil,
+			// is a failure return; everything else may be a success
 			if _, constructed := last.(*ssa.MakeInterface); constructed {
+				return
+			}
+			if provenNonNil(last, r) {
 				return
 			}
 		}
@@ -422,7 +426,11 @@ func ruleSkipDiscipline(c *Ctx, rule string, exceptions map[string]string) {
 			case skP:
 				ob.OKnt(fmt.Sprintf("%d token-kind tests on the function's own index parameter: callers must pass a skipped index (checked at every call site)", g.n))
 			default:
-				if why, ok := exceptions[f.fn.Name()+": "+key]; ok {
+				why, ok := exceptions[f.fn.Name()+": "+key]
+				if !ok {
+					why, ok = exceptions["*: "+key]
+				}
+				if ok {
 					ob.Exc(why)
 				} else {
 					ob.Bad(fmt.Sprintf("%d token-kind test(s) (%s) look at a position that was not skipped over whitespace and comments: inserting a blank or a comment there changes which branch the parser takes",
@@ -562,4 +570,30 @@ func ruleIgnorableSiblings(c *Ctx, rule string) {
 	} else {
 		ob.Bad(fmt.Sprintf("the expression-token filter tests kinds %v that the skipper does not treat as ignorable", extra))
 	}
+}
+
+// provenNonNil: `at` is dominated by the edge of a test `v != nil` / `v == nil` on which v is not nil.
+func provenNonNil(v ssa.Value, at ssa.Instruction) bool {
+	fn := at.Parent()
+	ok := false
+	instrsOf(fn, func(in ssa.Instruction) {
+		iff, is := in.(*ssa.If)
+		if !is {
+			return
+		}
+		bo, is := iff.Cond.(*ssa.BinOp)
+		if !is || bo.X != v || !isNilConst(bo.Y) {
+			return
+		}
+		var succ *ssa.BasicBlock
+		if bo.Op == token.NEQ {
+			succ = iff.Block().Succs[0]
+		} else if bo.Op == token.EQL {
+			succ = iff.Block().Succs[1]
+		}
+		if succ != nil && len(succ.Preds) == 1 && (succ == at.Block() || succ.Dominates(at.Block())) {
+			ok = true
+		}
+	})
+	return ok
 }
